@@ -424,8 +424,88 @@ func genFreeTuple(t *rapid.T, f *model.Forest, v *model.View, inRangeOnly, allow
 	return tp
 }
 
+// genLayoutMixTuple draws a TRUE claim about 1-3 existing nodes (leaves or inner nodes, none an
+// ancestor of another) with its canonical proof, and then writes each target in one of three ways:
+// as it is (external layout), as the same (row, offset) of another layout R' (a legitimate
+// coordinate for a map forest with TotalRows R'), or ALIASED: at a lower row of R' with the offset
+// that plain start-of-row arithmetic folds back onto the node. At least one target is aliased, so
+// the claim is false (nothing sits there), yet every hash and proof hash is the one a verifier
+// that converts layouts without range checks would need - also when a valid target masks it.
+func genLayoutMixTuple(t *rapid.T, f *model.Forest, v *model.View) (Tuple, bool) {
+	ps := sortedPositions(v)
+	if len(ps) == 0 {
+		return Tuple{}, false
+	}
+	want := rapid.IntRange(1, 3).Draw(t, "mix-n")
+	var chosen []uint64
+	for tries := 0; tries < 8 && len(chosen) < want; tries++ {
+		p := rapid.SampledFrom(ps).Draw(t, "mix-node")
+		ok := true
+		for _, q := range chosen {
+			for a := v.NodeAt[p]; a != nil; a = a.Up {
+				if a.Pos == q {
+					ok = false
+				}
+			}
+			for a := v.NodeAt[q]; a != nil; a = a.Up {
+				if a.Pos == p {
+					ok = false
+				}
+			}
+		}
+		if ok {
+			chosen = append(chosen, p)
+		}
+	}
+	var tp Tuple
+	for _, p := range chosen {
+		tp.Targets = append(tp.Targets, p)
+		tp.Hashes = append(tp.Hashes, fmt.Sprintf("N%d", p))
+	}
+	need, _ := v.ProofPositions(tp.Targets)
+	for _, p := range need {
+		tp.Proof = append(tp.Proof, fmt.Sprintf("N%d", p))
+	}
+	R := uint8(rapid.SampledFrom(hostileRows).Draw(t, "mix-R"))
+	if R <= v.R {
+		R = 63
+	}
+	aliased := false
+	for i, p := range tp.Targets {
+		r, off, ok := model.RowOff(p, v.R)
+		if !ok {
+			continue
+		}
+		mode := rapid.IntRange(0, 2).Draw(t, "mix-repr")
+		if i == len(tp.Targets)-1 && !aliased {
+			mode = 2
+		}
+		switch {
+		case mode == 1:
+			tp.Targets[i] = model.Pos(r, off, R)
+		case mode == 2 && r > 0:
+			low := uint8(rapid.IntRange(0, int(r)-1).Draw(t, "mix-low"))
+			o := p - model.RowStart(low, v.R)
+			if o < model.RowLen(low, R) && (low > 0 || R == 63 || true) {
+				tp.Targets[i] = model.Pos(low, o, R)
+				aliased = true
+			}
+		}
+	}
+	tp.Mut = []string{"layoutmix"}
+	return tp, aliased
+}
+
 // genHostileTuple draws either a mutated honest proof or a free tuple.
 func genHostileTuple(t *rapid.T, f *model.Forest, v *model.View, inRangeOnly, allowLenMismatch bool) Tuple {
+	if !inRangeOnly && rapid.IntRange(0, 5).Draw(t, "layoutmix") == 0 {
+		if tp, ok := genLayoutMixTuple(t, f, v); ok {
+			if rapid.Bool().Draw(t, "mix-then-mutate") {
+				tp = mutate(t, tp, f, v, inRangeOnly, allowLenMismatch)
+			}
+			return tp
+		}
+	}
 	live := f.Live()
 	if len(live) == 0 || rapid.IntRange(0, 4).Draw(t, "free") == 0 {
 		return genFreeTuple(t, f, v, inRangeOnly, allowLenMismatch)
